@@ -587,6 +587,40 @@ fn run_seq(ctl: &Arc<Ctl>, c: &Arc<Content>, cap: u64, rng: &mut impl Rng, nops:
     let _ = ctl.take_events();
     set_thread_actor("t1");
     let mut cache = open_cache(c, dir.path(), cap, false).unwrap();
+    // every other history starts with a directed prelude: two overlapping, non-nested items of one key, exactly one of
+    // them damaged (same length) while the cache is closed; after the re-open a read inside the intersection (served
+    // by either item), then reads that only one of the two can serve, in both orders
+    if c.nch >= 3 && rng.gen_bool(0.5) {
+        let k = rng.gen_range(0..c.keys.len());
+        let n = c.nch as u32;
+        let mid = rng.gen_range(1..n - 1);
+        let (a, b) = ((0u32, mid + 1), (mid, n)); // [0, mid+1) and [mid, n) share chunk mid
+        let order = if rng.gen_bool(0.5) { [a, b] } else { [b, a] };
+        for (s, e) in order {
+            do_op(c, &cache, &Op { kind: "put".into(), k, s, e });
+        }
+        drop(cache);
+        hemit("CcClose", String::new());
+        let (ds, de) = if rng.gen_bool(0.5) { a } else { b };
+        let p = c.item_path(dir.path(), k, ds, de);
+        if let Ok(mut bytes) = std::fs::read(&p) {
+            let pos = rng.gen_range(0..bytes.len());
+            bytes[pos] ^= 1 << rng.gen_range(0..8);
+            std::fs::write(&p, &bytes).unwrap();
+            hemit("CcDamage", format!("\"k\":\"{}\",\"s\":{},\"e\":{},\"kind\":\"bad\"", c.names[k], ds, de));
+        }
+        match open_cache(c, dir.path(), cap, true) {
+            Some(cc) => cache = cc,
+            None => return normalise(c, ctl.take_events()),
+        }
+        let mut reads = vec![(mid, mid + 1), (0, 1), (n - 1, n), (mid, mid + 1), (0, mid + 1), (mid, n)];
+        if rng.gen_bool(0.5) {
+            reads.swap(1, 2);
+        }
+        for (s, e) in reads {
+            do_op(c, &cache, &Op { kind: "get".into(), k, s, e });
+        }
+    }
     let mut i = 0;
     while i < nops {
         let roll = rng.gen_range(0..100);
